@@ -174,6 +174,12 @@ def generate(rng, tier):
         nodes = _nodes(rng, mode)
         flat = F(rng.choice([1, 2, 4, 8, 16, 64])) / rng.choice([1, 1, 2, 4]) if mode == "grid" else F(rng.uniform(0.3, 20))
         cases.append({"nodes": nodes, "flat": flat, "exact": mode == "grid", "family": "%s/n=%d" % (mode, len(nodes))})
+    return _with_previews(cases, rng)
+
+def _with_previews(cases, rng):
+    for c in cases:
+        if rng.random() < 0.3:
+            c["preview"] = rng.choice([[40.0], [8.0, 300.0], [1000.0], [3.0]]); c["family"] += "/coarser-preview-in-between"
     return cases
 
 def run_impl(c):
@@ -183,6 +189,11 @@ def run_impl(c):
     sp = mk()
     plot_utils.subdivideCubicPath(sp, float(c["flat"]))
     snap = copy.deepcopy(sp)
+    # a preview at a coarser flatness in between (same control points, fresh copy): what was good enough for the preview is not good
+    # enough for the plot
+    for mult in c.get("preview", []):
+        try: plot_utils.subdivideCubicPath(mk(), float(c["flat"]) * mult)
+        except Exception: pass
     sp2 = mk()
     # the second run passes the documented default of the start index explicitly (positionally or by keyword): the same request
     style = sum(len(nd) for nd in c["nodes"]) + len(str(c["flat"]))
